@@ -74,21 +74,29 @@ class C25(Prop):
     LEVEL_TEXT = (
         "Theorems (Coq, closed under the global context), for all strings / chunkings / command sequences: shlex.quote's "
         "image is read back by a model of the POSIX sh token recogniser as exactly the original word; the command lines "
-        "built by create_command (after the fix of this property) and _build_shell_command deliver working directory, "
-        "every environment value and every redirection target as one verbatim word; the end-marker framing of the "
-        "persistent shell returns exactly (strip(output), exit code) for every chunking of the stream and leaves the "
-        "stream clean, hence any sequence of commands that do not time out equals fresh processes and is started once "
-        "each; with the shell closed on timeout (fix) later commands are unaffected. Refuted with witnesses: the "
-        "export K=\"v\" form still used by CommandTemplateMap; exactly-once after a timeout (fall-back re-runs the command). "
-        "The models are tied to /repo by running both on generated cases (exact command strings, a scripted reader for "
-        "the framing, real sh for the tokenizer, real LocalConnector / BaseConnector / template runs with a child that "
-        "dumps argv, env and cwd).")
+        "built by create_command and _build_shell_command (both after the fixes of this property) deliver working directory, "
+        "every environment value and every redirection target as one verbatim word, and the persistent shell always runs the "
+        "command in a child sh -c with an empty stdin; the end-marker framing returns exactly (strip(output), exit code) for "
+        "every chunking of the stream and leaves the stream clean; given well-framed responses, any sequence of commands that "
+        "do not time out is started once each and returns what fresh processes return (C25_sequence is about the framing; "
+        "that cd/export/exit given to run() cannot change the shell is C25_shell_state_isolated over a small model of sh); "
+        "BaseConnector.run's path decision starts every command exactly once when nothing times out. Refuted with "
+        "witnesses (known findings, NOT repaired in /repo): the export K=\"v\" form of CommandTemplateMap; after a timeout the "
+        "command is started a second time and the next command's output is prefixed by the late output and old marker "
+        "(the shell is left open; closing it in the handler hangs). The models are tied to /repo by running both on generated "
+        "cases (exact command strings, a scripted reader for the framing, real sh for the tokenizer, real LocalConnector / "
+        "BaseConnector / template runs with a child that dumps argv, env and cwd, sequences with cd/export/exit/stdin-reader "
+        "steps and injected timeouts, non-UTF-8 outputs).")
     LEVEL_NOTE = (
         "Partial: /bin/sh is modelled only as a token recogniser fragment that answers None on anything it does not cover "
-        "(validated against dash on generated strings); process creation, asyncio timeouts, the incremental UTF-8 decoder, "
-        "uuid uniqueness of markers and the OS are exercised, not modelled; 'complete output' is judged up to the str.strip() "
-        "both execution paths apply; the user command text (' '.join(command)) is shell text by design and only assumed to "
-        "lex to its own tokens.")
+        "(validated against dash) plus a six-command model of cd/export/exit/pwd/echo; process creation, asyncio timeouts, the "
+        "incremental UTF-8 decoder (errors='replace' on both paths after the fix), uuid uniqueness of markers and the OS are "
+        "exercised, not modelled; 'complete output' is judged up to str.strip(), which both paths apply; the model's py_strip "
+        "strips ASCII white space only (\\t\\n\\v\\f\\r, FS GS RS US, space): outputs whose edge is non-ASCII white space "
+        "(NBSP, U+2028, ...) are outside the correspondence domain and judged by the oracle only; the user command text "
+        "(' '.join(command)) is shell text by design and only assumed to lex to its own tokens. Known and not repaired: "
+        "template export K=\"v\"; double start and polluted next output after a timeout; the fall-back of a bare "
+        "BaseConnector (no shipped connector uses it) execs shlex.split(line) without a shell.")
     TECHNIQUE = ("Coq proof (induction over strings, chunk lists and command lists) + vm_compute correspondence against the "
                  "Python functions + end-to-end oracle runs")
     RULE = ("quote/words: hostile strings and shell-text fragments; create/build/template: random command, env (hostile values), "
@@ -212,6 +220,7 @@ class C25(Prop):
             for _ in range(nrun):
                 cases.append({"f": "run", "conn": conn, "args": [hostile(rng) for _ in range(rng.randrange(0, 4))],
                               "env": self._env(rng), "wd": rng.choice([None, self._wdname(rng)]),
+                              "wdmissing": rng.random() < 0.08,
                               "rc": rng.choice([0, 0, 0, 1, 3, 255])})
         nout = {"quick": 5, "thorough": 15, "extended": 10}[tier]
         for conn in ("local", "base"):
@@ -223,6 +232,7 @@ class C25(Prop):
                               "rc": rng.choice([0, 1, 42, 255])})
         for _ in range({"quick": 16, "thorough": 48, "extended": 24}[tier]):
             cases.append({"f": "path", "job": rng.random() < 0.35, "stdin": rng.random() < 0.35, "cap": rng.random() < 0.6,
+                          "env": rng.random() < 0.2,
                           "out": rng.choice(["", "x", "three\n", "  pad  ", "l1\nl2", "no-nl"]), "rc": rng.choice([0, 0, 1, 7, 255])})
         nseq = {"quick": 6, "thorough": 18, "extended": 9}[tier]
         for j in range(nseq):
@@ -394,7 +404,7 @@ class C25(Prop):
                 return {"skip": "not a directory name"}
             wd = os.path.join(d, "w", c["wd"])
             try:
-                os.makedirs(wd)
+                os.makedirs(os.path.dirname(wd) if c.get("wdmissing") else wd)
             except (OSError, ValueError):
                 return {"skip": "workdir cannot be created"}
         keys = ",".join(k for k, _ in (c["env"] or []))
@@ -510,6 +520,7 @@ class C25(Prop):
         res = {}
         try:
             r = await conn.run(loc, ["sh", "-c", shlex.quote(script)], capture_output=c["cap"], timeout=300,
+                               environment={"SFV_P": "1"} if c.get("env") else None,
                                stdin=self.asyncio.subprocess.DEVNULL if c["stdin"] else None,
                                job_name="job" if c["job"] else None)
             res["ret"] = None if r is None else [hexs(r[0].encode()), r[1]]
@@ -648,6 +659,11 @@ class C25(Prop):
         if f == "run":
             if "skip" in o:
                 return None
+            if c.get("wdmissing") and c["wd"] is not None:
+                if o.get("count") or o.get("rc") == 0:
+                    return ("workdir-missing", f"the working directory does not exist, yet the command was started "
+                                               f"{o.get('count')} time(s), rc {o.get('rc')} ({c['conn']})")
+                return None
             if (o.get("count") or 0) > 1:
                 return ("exactly-once", f"the command was started {o.get('count')} times ({c['conn']}): {str(o)[:200]}")
             dump = o.get("dump")
@@ -673,7 +689,7 @@ class C25(Prop):
             if "exc" in o or not o.get("same") or o.get("rc") != c["rc"]:
                 return ("output-status", f"output/status differ: {str(o)[:300]}")
         if f == "path":
-            if o.get("count") != 1:
+            if "exc" not in o and o.get("count") != 1:
                 return ("exactly-once", f"run(job={c['job']}, stdin={c['stdin']}, capture={c['cap']}) started the command "
                                         f"{o.get('count')} times: {o}")
             want = [hexs(c["out"].strip().encode()), c["rc"]] if c["cap"] else None
@@ -683,7 +699,8 @@ class C25(Prop):
             fails = self._seq_failures(c, o)
             if fails:
                 known = self._known()
-                pick = next((x for x in fails if f"seq/{x[0]}/{x[1]}" not in known), fails[0])
+                pick = next((x for x in fails if f"seq/{x[0]}/{x[1]}" not in known), None) \
+                    or next((x for x in fails if x[0] == c.get("prefer")), fails[0])   # corpus replays name their clause
                 return (pick[0], pick[2] + f" [all failing steps: {[(x[0], x[1]) for x in fails]}]")
         return None
 
@@ -793,6 +810,18 @@ class C25(Prop):
             fresh = oc(o["ret"]) if o["via"] == "sub" else "(inr EHang)"
             return (f"CRunAny {q} {coq_str(m)} {resp} {fresh} {oc(o['ret'])} {coq_nat(o['count'])} "
                     f"{'ViaSubprocess' if o['via'] == 'sub' else 'ViaShell'}")
+        if f == "seq" and not any(st["k"] == "to" for st in c["steps"]):
+            cs, rs = [], []
+            for st, so in zip(c["steps"], o["steps"]):
+                k = st["k"]
+                cs.append({"ok": lambda: f"SExt {coq_str(st['out'])} {coq_N(st['rc'])}",
+                           "cd": lambda: f"SCd {coq_str(st['d'])}", "pwd": lambda: "SPwd",
+                           "export": lambda: f"SExport {coq_str(st['key'])} {coq_str(st['val'])}",
+                           "echo": lambda: f"SEcho {coq_str(st['key'])}", "exit": lambda: f"SExit {coq_N(st['n'])}",
+                           "stdin": lambda: f"SExt {coq_str('got=[]' + chr(10))} {coq_N(0)}"}[k]())
+                rs.append(f"({coq_str(bytes.fromhex(so['r'][0]))}, {coq_N(so['r'][1])})" if "r" in so
+                          else f"({coq_str('<' + str(so.get('exc')) + '>')}, {coq_N(0)})")
+            return f"CSeqState {coq_str(o['cwd'])} {coq_list(cs)} {coq_list(rs)}"
         if f == "seq":
             cs, rs, k = [], [], 0
             for st, so in zip(c["steps"], o["steps"]):
@@ -842,7 +871,9 @@ class C25(Prop):
                 or next((x for x in self._seq_failures(c, o) if x[0] == clause), None)
             return f"seq/{clause}/{x[1] if x else 'none'}"
         if f == "path":
-            return f"path/{clause}/job={int(c['job'])},stdin={int(c['stdin'])},cap={int(c['cap'])}"
+            if o.get("exc") == "FileNotFoundError" and c.get("env") and (c["job"] or c["stdin"]):
+                return f"path/{clause}/bare-fallback-without-shell"
+            return f"path/{clause}/job={int(c['job'])},stdin={int(c['stdin'])},cap={int(c['cap'])},env={int(bool(c.get('env')))}"
         return f"{f}/{clause}"
 
     def shrink(self, c):
